@@ -32,7 +32,9 @@ theorem cmdLoop_no_kill (e : Env) (hk : e.killAt = none) (cs : List Cmd) (k : Na
     simp only [reduceCtorEq, if_false]
     split
     · simp
-    · exact ih _ _ _
+    · split
+      · simp
+      · exact ih _ _ _
 
 theorem runBody_skipped (i : Nat) (t : Task) (dry : Bool) (e : Env) (s : State) :
     (runBody cfg H pr i t dry e s).2.skipped = false := by
@@ -41,7 +43,7 @@ theorem runBody_skipped (i : Nat) (t : Task) (dry : Bool) (e : Env) (s : State) 
   split
   · rfl
   · split
-    · rfl
+    · split <;> rfl
     · split <;> rfl
 
 /-- a `run` reports "up to date" only when the check said so -/
